@@ -252,6 +252,18 @@ class Check:
 
     # -- lean side
     def build_and_audit(self):
+        # translator step: data tables / constants are regenerated from /repo's current files
+        try:
+            import importlib.util
+            spec = importlib.util.spec_from_file_location("gen_lean_tables", os.path.join(VERIF, "tools", "gen_lean_tables.py"))
+            mod = importlib.util.module_from_spec(spec)
+            spec.loader.exec_module(mod)
+            changed = mod.main()
+            if any(changed):
+                self.notes.append(f"Generated/*.lean rewritten from /repo: {changed}")
+                subprocess.run([os.path.join(LEAN, "gen_root.sh")], check=False)
+        except Exception as e:  # noqa
+            self.broken_obligations.append(f"translator tools/gen_lean_tables.py failed: {e!r}")
         ok, out = lake_build()
         if not ok:
             self.broken_obligations.append("lean-build")
